@@ -145,6 +145,10 @@ impl<'a> G<'a> {
     }
 
     fn string(&mut self, name: bool) -> String {
+        if name && !self.cfg.safe_names && self.r.chance(3) {
+            // untagged odd member names (duplicates simply overwrite): empty, blank, JSONPath-ish
+            return (*self.r.pick(&["", " ", "0", "$", "~", ".", "[0]", "a.b", "$.x"])).to_string();
+        }
         let kind = self.alphabet();
         let n = match self.r.below(10) {
             0 => 0,
@@ -321,6 +325,16 @@ impl<'a> G<'a> {
             _ => self.r.below(5),
         };
         let mut out = vec![];
+        if self.budget > 0 && self.r.chance(4) {
+            // occasionally a long array of leaves: two-digit indices ([1] vs [10]..[13])
+            let long = 11 + self.r.below(4);
+            for _ in 0..long {
+                let v = self.leaf();
+                out.push(v);
+            }
+            self.budget -= 4;
+            return Value::Array(out);
+        }
         for _ in 0..n {
             let v = match self.cfg.profile {
                 Profile::ArraysOfArrays if depth > 0 && self.budget > 0 && self.r.chance(60) => {
